@@ -15,6 +15,21 @@ CHECK_TEXT = {
     },
 }
 
+CHECK_TEXT["C11"] = {
+    "text": ("Proof of the byte-level key scheme both backends rest on, on the real function bodies (extracted every run): "
+             "prefix_upper_bound returns ub(prefix) and the scan window [prefix, ub) contains EXACTLY the byte strings that start with prefix, for all "
+             "prefixes incl. empty / 0xFF-heavy (unbounded induction); transform_key == tk; encode_value_length_prefixed appends le64(len)++bytes; "
+             "encode_wide_column_key lays out discriminant/key as Prefixed/Suffixed (fjall: with non-empty padding). Spec-level consequences proved "
+             "from those contracts: extractor(lp(k)++e)=lp(k); lp(k1) prefix of lp(k2)++e => k1=k2 (no leakage between prefix-related / empty keys); "
+             "lp(k) always has an upper bound; member split; (discriminant,key) -> bytes injective; padding creates no collision. "
+             "Tests sample a handful of keys; this holds for every key."),
+    "design_ref": "DESIGN.md section 5 (C11)",
+    "note": ("The backends (RocksDB, Fjall: ordering, atomic batches, bounds, persistence) are TRUSTED, as are the R10-R12 wrappers and interface stand-ins "
+             "listed in evidence; get/put plumbing, column-family management, commit and reopen are not under contract. "
+             "The claim is the encoding layer only."),
+    "technique": "contract-based deductive verification: Verus (Z3) on mechanically extracted real functions, inductive lemmas for the scan window",
+}
+
 NOT_APPLICABLE = {
     "C01": "whole-history property of an async, concurrent engine; no sequential function's contract implies it and neither Verus nor Kani ingests async/tokio/scc code (DESIGN 1, 5)",
     "C02": "quantifies over schedules / single-flight / termination: concurrency and liveness are outside both verifiers (Kani has no threads; Verus would need the code rewritten onto its permission types)",
@@ -31,7 +46,6 @@ NOT_APPLICABLE = {
 PENDING = {
     "C09": "check under construction (DESIGN 5: staging-replay kernel); not claimed until it runs",
     "C10": "check under construction (DESIGN 5: reorder buffer); not claimed until it runs",
-    "C11": "check under construction (DESIGN 5: key scheme); not claimed until it runs",
     "C13": "check under construction (DESIGN 5: hash framing); not claimed until it runs",
     "C14": "check under construction (DESIGN 5: id plumbing); not claimed until it runs",
     "C16": "check under construction (DESIGN 5: admission policy); not claimed until it runs",
